@@ -480,6 +480,14 @@ def run(rep, tier):
     for (h, lab, s) in specs:
         nds += dispatch_rule(rep, us[s.label], "include/" + hashes.HASHES[h]["hdr"])
     rep.floor("sha2_transform dispatch combinations", nds, 4)
+    # sha2_init's selector: every variant is reachable by its bit length and by its byte size (rule lives in C07, whose second
+    # pass re-initialises with the stored byte size; a selector that matches nothing leaves the context uninitialised)
+    from props import c07
+    nsel = 0
+    for (h, lab, s) in specs:
+        if us[s.label].fn("sha2_init") is not None:
+            nsel = max(nsel, c07.selector_table(rep, us[s.label]))
+    rep.floor("sha2_init selector arms", nsel, 4)
     from props import c04_tables, c04_more
     c04_tables.run(rep, specs, us, tier)
     c04_more.run(rep, specs, us, tier)
